@@ -241,8 +241,21 @@ func checkCase(c Case) error {
 					return fmt.Errorf("grid: sheet %q CellByRef(%s) and Cell(%d,%d) disagree", s.Name, xlsxw.Ref(k[1], k[0]), k[0], k[1])
 				}
 			}
+			stale := map[key]string{}
+			for _, c := range s.Cells {
+				if c.Stale {
+					stale[key{c.Row, c.Col}] = c.Display()
+				}
+			}
 			for ri, row := range sh.Rows {
 				for ci := range row {
+					if v := row[ci].Value; v != "" && v == stale[key{ri, ci}] {
+						// the stored value of a covered cell may be kept in the grid only if the cell is marked as covered
+						if !row[ci].IsMerged || row[ci].IsMergeRoot {
+							return fmt.Errorf("grid: sheet %q cell %s holds %q, the undisplayed value of a covered cell of a merged range, and is not marked as covered (IsMerged=%v IsMergeRoot=%v)", s.Name, xlsxw.Ref(ci, ri), v, row[ci].IsMerged, row[ci].IsMergeRoot)
+						}
+						continue
+					}
 					if v := row[ci].Value; v != "" && g[key{ri, ci}] != v {
 						return fmt.Errorf("grid: sheet %q cell %s = %q, want %q (value at an address the workbook does not fill that way)", s.Name, xlsxw.Ref(ci, ri), v, g[key{ri, ci}])
 					}
@@ -412,6 +425,11 @@ func meta(c Case) vr.Meta {
 		}
 		if len(s.EmptyRows) > 0 {
 			lab["empty-row-elements"] = true
+		}
+		for _, cell := range s.Cells {
+			if cell.Stale {
+				lab["stale-value-in-covered-cell"] = true
+			}
 		}
 		if s.OmitRowR {
 			lab["row-without-r"] = true
